@@ -181,8 +181,10 @@ func runC12(c *kit.Ctx) {
 
 	// ---- R2 ---------------------------------------------------------------
 	conditionalMutationsAreNotBatchable(c)
+	constructorsForwardTheirOptions(c)
 
 	c.StartRule("R2", "only retryable classes are sent again", 3)
+	everyFailedResultReachesTheReaction(c)
 	multiDecodesEveryResult(c)
 	regionExceptionUnchanged(c)
 	{
@@ -313,6 +315,7 @@ func runC12(c *kit.Ctx) {
 
 	// ---- R3 ---------------------------------------------------------------
 	c.StartRule("R3", "per-region order is preserved", 4)
+	multiBuildsItsRequestInFreshMemory(c)
 	if mtp := c.Anchor("region", "multi", "toProto"); mtp != nil {
 		cellblocksInActionOrder(c, mtp)
 		serialisedCallGetsAction(c, mtp)
@@ -513,5 +516,11 @@ func runC12(c *kit.Ctx) {
 			}
 		}
 		c.Check(bad == "", sb, "no-reordering", sb.Pos(), "no sort/reverse/insert/shuffle and no in-place element store anywhere on the batch path", "the batch path reorders calls: "+bad)
+	}
+
+	// ---- R5 ---------------------------------------------------------------
+	if !c.Frozen {
+		embed(c, "R5", "the cache a batch is routed by never holds two regions for one key (the rules of C08, run as one rule here)", 10, runC08)
+		embed(c, "R6", "a call that was not executed is reported with an error of its own, never as a success (the outcome rules of C07, run as one rule here)", 20, runC07)
 	}
 }
